@@ -157,7 +157,7 @@ def mfront_part(c):
     c.repo_build(["mfront"])
     exe = os.path.join(REPO_BUILD, "mfront", "src", "mfront")
     sem = "/dev/shm/sem.mfront-%d" % os.getuid()
-    saved = open(sem, "rb").read() if os.path.exists(sem) else None   # known defect (C46): every run posts the semaphore
+    saved = None   # mfront runs are isolated in a private /dev/shm by vlib.run: the shared semaphore is never touched
     try:
         wd = os.path.join(c.work, "runs")
         os.makedirs(wd, exist_ok=True)
@@ -209,11 +209,7 @@ def mfront_part(c):
                       "how": "mfront --interface=c A.mfront; ... B.mfront; head -c %d src/targets.lst > t; mv t src/targets.lst; mfront --interface=c C.mfront" % k}, True)
         return bool(lost)
     finally:
-        if saved is not None:
-            with open(sem, "wb") as f:
-                f.write(saved)
-        elif os.path.exists(sem):
-            os.remove(sem)
+        pass
 
 
 def main(c):
